@@ -102,6 +102,17 @@ theorem no_split {s : State} (h : Reach s) {x z : Item} (hx : ¬ isRoot s x)
     sameTree (reparent s x z) u v :=
   sameTree.reparent_nonroot h.inv.a.lex hx hlt hst huv
 
+/-- from barrier to barrier sets only grow: items in one set after a barrier are in one set
+after every later barrier (whatever was issued, delivered or compressed in between) -/
+theorem sets_only_grow {s s' : State} (h : Reach s) (st : Steps s s') (hq : s.msgs = []) (hq' : s'.msgs = [])
+    {x y : Item} (hxy : root s x = root s y) : root s' x = root s' y := by
+  have h' : Reach s' := by
+    clear hq hq' hxy
+    induction st with
+    | refl => exact h
+    | tail _ st ih => exact Steps.tail ih st
+  exact (connectivity h' hq' x y).2 (Conn.mono (issued_mono st) ((connectivity h hq x y).1 hxy))
+
 /-! ## counting -/
 
 /-- #root merges + num_sets = size, in every reachable state -/
@@ -166,6 +177,22 @@ reads as `(0, self)` -/
 theorem absent_is_singleton {s : State} (h : Reach s) {x : Item} (hx : x ∉ s.dom) : rank s x = 0 ∧ parent s x = x := by
   have := h.inv.a.nondom x hx
   unfold rank parent; rw [this]; exact ⟨rfl, rfl⟩
+
+/-- the decidable checks the driver evaluates on dumps of the real parent map hold in every
+reachable state of the model -/
+theorem checks_hold {s : State} (h : Reach s) : checkLex s = true ∧ checkClosed s = true := by
+  constructor
+  · unfold checkLex
+    rw [List.all_eq_true]
+    intro x _
+    by_cases hr : parent s x = x
+    · simp [hr]
+    · have := (lexLtB_iff s x (parent s x)).2 (h.inv.a.lex x hr)
+      simp [this]
+  · unfold checkClosed
+    rw [List.all_eq_true]
+    intro x hx
+    simpa using h.inv.a.closed x hx
 
 /-! ## non-vacuity: concrete reachable states -/
 
